@@ -139,12 +139,31 @@ def run_case(bname, basis, s):
     return out
 
 
+class _Timeout(BaseException):
+    pass
+
+
+def _alarm(signum, frame):
+    raise _Timeout()
+
+
 def main():
+    import signal
+    signal.signal(signal.SIGALRM, _alarm)
     job = json.load(sys.stdin)
     bases = job["bases"]
+    limit = int(job.get("limit", 30))
     res = []
     for bname, s in job["cases"]:
-        res.append(run_case(bname, bases[bname], s))
+        # sympy (powsimp / factor / evalf of towers of powers) can run for minutes: such formulas are set aside
+        try:
+            signal.alarm(limit)
+            rec = run_case(bname, bases[bname], s)
+        except _Timeout:
+            rec = {"basis": bname, "formula": s, "timeout": True}
+        finally:
+            signal.alarm(0)
+        res.append(rec)
     json.dump(res, sys.stdout)
 
 
